@@ -123,6 +123,7 @@ func checkC17(c *Ctx, r *Report) {
 	r.rule("C17.R7", "every message is decoded into a struct that is empty: a new local object per decode (go-diameter only sets the members whose AVPs are present, so optional groups of an earlier message would stay)", 4)
 	r.rule("C17.R8", "the named constants of an Enumerated AVP's Go type carry the codes the dictionary gives the items of the same name (the peer - and the switch statements on both sides - mean the dictionary's value)", 4)
 	r.rule("C17.R9", "no numeric member is dropped from the message when it holds 0: go-diameter's omitempty (explicit, or implied by a tag that carries other keys) only on members whose empty value means absent", 0)
+	r.rule("C17.R10", "what goes on the wire is what Marshal made of the struct: no code of the module edits the AVP list of a message or of a grouped AVP", 1)
 	r.rule("C17.R6", "AVP code constants of ccs_diameter/code that name a dictionary AVP carry that AVP's code", 20)
 
 	dictPkg := c.pkg("ccs_diameter/dict")
@@ -371,6 +372,31 @@ func checkC17(c *Ctx, r *Report) {
 	c17Commands(c, r, ds, appID)
 	c17ErrDiscipline(c, r)
 	c17FreshDecodeTarget(c, r)
+	// R10: who may write diam.Message.AVP / GroupedAVP.AVP
+	{
+		n := 0
+		for _, f := range c.ModFuncs {
+			eachInstr(f, func(_ *ssa.BasicBlock, _ int, ins ssa.Instruction) {
+				st, ok := ins.(*ssa.Store)
+				if !ok {
+					return
+				}
+				fa, ok := st.Addr.(*ssa.FieldAddr)
+				if !ok || fieldName(fa) != "AVP" {
+					return
+				}
+				nt := namedOf(fa.X.Type())
+				if nt == nil || nt.Obj().Pkg() == nil || nt.Obj().Pkg().Path() != diamPath || (nt.Obj().Name() != "Message" && nt.Obj().Name() != "GroupedAVP") {
+					return
+				}
+				n++
+				r.viol("C17.R10", fnKey(rootOf(f))+"|edits the AVP list", posOf(c, ins), "the AVP list of a "+nt.Obj().Name()+" is assigned by "+shortFn(rootOf(f))+" after Marshal built it: AVPs the struct carried (a zero amount, an empty group) are taken out - or others put in - behind the back of the struct mapping, so the receiver does not get every member that was sent")
+			})
+		}
+		if n == 0 {
+			r.proven("C17.R10", "message AVPs|no writer", "", "no function of the module assigns Message.AVP / GroupedAVP.AVP: what goes on the wire is what Marshal made of the struct")
+		}
+	}
 	c17Codes(c, r, ds, appID)
 }
 
